@@ -217,6 +217,8 @@ class Exec:
         self.results = []
         self.inconclusive = []          # reasons collected on feasible paths
         self.paths_cut = 0
+        self.undecided_paths = 0
+        self.feas_timeout_ms = 10000
 
     # ------------------------------------------------------------ solver helpers
     def check(self, conds):
@@ -224,6 +226,7 @@ class Exec:
         t0 = time.time()
         self.solver.push()
         self.solver.add(*conds)
+        self.solver.set('timeout', self.feas_timeout_ms)
         r = self.solver.check()
         self.solver.pop()
         self.solver_s += time.time() - t0
@@ -232,7 +235,10 @@ class Exec:
     def feasible(self, pc):
         r = self.check(pc)
         if r == unknown:
-            raise Inconclusive('solver returned unknown on a path condition')
+            # sound: an undecided path is explored as if feasible (an obligation on an infeasible path can never come back violated,
+            # because its query contains the path condition); only the vacuity accounting is weaker, so it is recorded
+            self.undecided_paths += 1
+            return True
         return r == sat
 
     def fresh(self, tag, sort_or_w):
